@@ -477,6 +477,20 @@ func Edits(d *Dialect) []Edit {
 			Edit{"index_prefix", []string{"idx:idx_b_prefix"}, func(s *schema.Schema) {
 				I(T(s, "t"), "idx_b_prefix").Parts[0].Attrs = []schema.Attr{&mysql.SubPart{Len: 20}}
 			}, []string{mt("ModifyIndex(idx_b_prefix)[parts]")}},
+			// a column goes together with the index over it (MySQL drops that index implicitly), and the
+			// same ALTER adds another index afterwards.
+			Edit{"drop_indexed_column_and_add_index", []string{"col:c", "idx:c", "idx:idx_after", "col:d"}, func(s *schema.Schema) {
+				t := T(s, "t")
+				dropIdx(t, "c")
+				dropCol(t, "c")
+				t.AddIndexes(schema.NewIndex("idx_after").AddParts(part(1, C(t, "d"))))
+			}, []string{mt("DropColumn(c)"), mt("DropIndex(c)"), mt("AddIndex(idx_after)")}},
+			// primary-key parts that cannot be written as a plain column list: a prefix, a descending part.
+			Edit{"pk_part_with_prefix", []string{"pk", "col:b"}, func(s *schema.Schema) {
+				t := T(s, "t")
+				t.PrimaryKey.AddParts(&schema.IndexPart{SeqNo: 2, C: C(t, "b"), Attrs: []schema.Attr{&mysql.SubPart{Len: 8}}})
+			}, []string{mt("ModifyPrimaryKey[parts]")}},
+			Edit{"pk_part_desc", []string{"pk"}, func(s *schema.Schema) { T(s, "t").PrimaryKey.Parts[0].Desc = true }, []string{mt("ModifyPrimaryKey[parts]")}},
 			Edit{"index_type", []string{"idx:idx_d"}, func(s *schema.Schema) {
 				I(T(s, "t"), "idx_d").Attrs = []schema.Attr{&mysql.IndexType{T: "HASH"}}
 			}, []string{mt("ModifyIndex(idx_d)[attr]")}},
